@@ -210,6 +210,8 @@ def run(ctx, model=None):
         games = []
         for i, (kind, g) in enumerate(pick):
             nm = rng.choice(["game", "g", "x_1", "robot_7_w2", "a_no"]) + f"_{i}"
+            if rng.random() < 0.2:
+                nm = f"solo{i}_no_prune"      # a name that merely LOOKS like an unpruned entry (no other game is called solo<i>)
             games.append((nm, g))
         solos = {n: solo(g) for n, g in games}
         run_batch(ctx, games, model, "order", solos)
